@@ -402,7 +402,7 @@ class QGen:
 
     def nonzero(self, scope, fuel) -> Tuple[str, str]:
         """a number constructed to be >= 1 in magnitude (denominators)"""
-        k = self.weighted([(3, "sq"), (2, "count"), (2, "lit"), (1, "abs")])
+        k = self.weighted([(3, "sq"), (2, "count"), (2, "lit"), (1, "abs"), (2, "prod")])
         if k == "lit":
             return (self.pick(["2", "4", "0.5", "3", "8.0"]), "int")
         if k == "count":
@@ -415,6 +415,11 @@ class QGen:
         if k == "abs":
             self.labels.add("math")
             return (f"(abs({t}) + 1)", kind if kind == "int" else "double")
+        if k == "prod":
+            # a bare product (or quotient) as the whole denominator: a / (b * c) is not a / b * c
+            lit = self.pick(["2", "4", "0.5", "3"])
+            op = self.pick(["*", "*", "/"])
+            return (f"({lit} {op} ({t} * {t} + 1))", "int" if (kind == "int" and op == "*" and "." not in lit) else "double")
         return (f"({t} * {t} + 1)", kind)
 
     def num(self, scope, fuel) -> Tuple[str, str]:
